@@ -6,7 +6,7 @@ from .. import oracle as o
 ID = 'C08'
 RULE = ('one record per (digest, key, message, chunking): Hmac over every legacy Digest type (18 algorithms, BLAKE2 at several output sizes); '
         'key lengths 0,1,bs-1,bs,bs+1,2bs+3,random; result must equal H((K^opad)||H((K^ipad)||m)) and output_bytes the digest size; '
-        'distinct = (digest, key length class, message length, chunking)')
+        'three messages of 2^29 - 64 + k bytes (the inner hash length field passes 2^32 bits); distinct = (digest, key length class, message length, chunking)')
 ASSUMPTIONS = ['python hmac construction over hashlib / pure Keccak; block size of SHA-3/Keccak = sponge rate']
 FLOORS = {'evaluations': 2000, 'distinct': 1500}
 THOROUGH_ROUNDS = 150   # thorough tier: generator passes with derived seeds (runner.gen_rounds)
@@ -40,6 +40,13 @@ def gen(tier, seed):
                     steps = ['i.0.%s' % (m[a:b].hex() or '-') for a, b in zip(cuts, cuts[1:])]
                     fin = rng.choice(['r.0', 'rr.0.%d' % ol])
                     yield 'mac hmac:%s %s ob.0 %s %s #k=%s/%s' % (d, key, ' '.join(steps), fin, kcls, style)
+    yield from huge(rng)      # tagged #huge: only in the first generator pass of a thorough run, and not re-run by C20
+
+
+def huge(rng):
+    # inner hash input = 64-byte padded key block + message: its bit length passes 2^32 from 2^29 - 64 message bytes on
+    for d in ('ripemd160', 'sha1', 'sha256'):
+        yield 'mac hmac:%s %s ob.0 i.0.%%%d:4093:%d r.0 #huge/k=rnd<bs' % (d, rng.data(20), rng.below(1000), (1 << 29) - 64 + rng.below(100))
 
 
 def check(line, toks):
